@@ -35,7 +35,12 @@ def run(tier):
             perms = [perms[0], perms[-1]] + rnd.sample(perms[1:-1], 1 if tier == "quick" else 2)
         variants = [[{"op": "add", "tpls": list(p)}] for p in perms]
         if v["ok"] and len(tpls) > 1:
-            variants.append([{"op": "add", "tpls": [t]} for t in tpls])          # one by one, parents first
+            byname = dict(tpls)
+            order, cur = [], [n for n in names if not v["g"][n]["ext"]][0]
+            while cur:
+                order.append(cur)
+                cur = next((n for n in names if v["g"][n]["ext"] == cur), None)
+            variants.append([{"op": "add", "tpls": [[n, byname[n]]]} for n in order])          # one by one, parents first
         for steps0 in variants:
             steps = list(steps0) + [{"op": "state"}]
             if v["ok"]:
@@ -43,14 +48,16 @@ def run(tier):
                     steps += [{"op": "render", "name": n}, {"op": "render_block", "name": n, "block": "a"}, {"op": "render_block", "name": n, "block": "b"}]
             jobs.append({"cfg": {}, "steps": steps})
             meta.append((vi, len(steps0)))
-    res = vp.traced(jobs, C, "c04", timeout=3000) if tier == "quick" else vp.run_jobs(jobs, tag="c04", timeout=6000)
+    res = vp.run_jobs(jobs, tag="c04", timeout=6000)
+    # I->S on a fixed eighth of the jobs (deterministic): block / super frames of the real executions against TeraVM
+    vp.traced([j for i, j in enumerate(jobs) if i % (8 if tier == "quick" else 16) == 0], C, "c04-trace", timeout=3000)
     for (vi, nadd), rr, job in zip(meta, res, jobs):
         v = vecs[vi]
         C.count()
         names = sorted(v["g"].keys())
         if any(d["a"] != "none" or d["b"] != "none" for d in v["g"].values()):
             C.nontrivial(v["g"])
-        key = {"chain": {n: [v["g"][n]["a"], v["g"][n]["b"], "cap" if v["g"][n]["cap"] else "nest" if v["g"][n]["nest"] else "top"] for n in names}}
+        key = {"chain": {n: [v["g"][n]["ext"], v["g"][n]["a"], v["g"][n]["b"], "cap" if v["g"][n]["cap"] else "nest" if v["g"][n]["nest"] else "top", "super-after" if v["g"][n]["sa"] else ""] for n in names}}
         if any(x.get("panic") or x.get("abort") for x in rr):
             C.violation(dict(key, kind="panic"), "panic on chain %s" % key["chain"], {"job": job, "result": rr})
             continue
